@@ -54,6 +54,14 @@ Qed.
 Lemma inject_Z_sub (a b : Z) : (inject_Z (a - b) == inject_Z a - inject_Z b)%Q.
 Proof. unfold Z.sub. rewrite inject_Z_plus, inject_Z_opp. reflexivity. Qed.
 
+(* Python / numpy basic slicing along one axis of length n: a bound s is normalised as slice.indices does
+   (negative: + n, then clipped to [0, n]); element i (0 <= i < n) is selected by lo:hi iff
+   norm lo <= i < norm hi, a missing bound being 0 / n.  Note a[-0:] = a[0:] is the WHOLE axis. *)
+Definition py_slice_norm (s n : Z) : Z := if (s <? 0)%Z then Z.max (s + n) 0 else Z.min s n.
+Definition py_in_slice (lo hi : option Z) (n i : Z) : bool :=
+  ((match lo with None => 0 | Some s => py_slice_norm s n end <=? i)
+   && (i <? match hi with None => n | Some s => py_slice_norm s n end))%Z.
+
 (* floor / ceiling are characterised by their defining inequalities *)
 Lemma Qfloor_unique (z : Z) (x : Q) : (inject_Z z <= x < inject_Z z + 1)%Q -> Qfloor x = z.
 Proof.
